@@ -48,6 +48,7 @@ package chainindex
 // records of height h-window may change (be removed), and only when 0 < window < h (never genesis,
 // never a height inside the window); a failed call changes nothing.
 //@ func (*ChainIndex).UpdateLastAccepted props C19
+//@   modifies dbmap(c.db)[]
 //@   requires wfidx(dbmap(c.db)) && c.config.BlockCompactionFrequency != 0
 // block ids are collision free: the block recorded at the height that is about to leave the window
 // (a different height) does not carry the id of the new block
@@ -90,6 +91,7 @@ package chainindex
 // a historical block is stored with both mappings and nothing else moves (in particular not the
 // last-accepted pointer)
 //@ func (*ChainIndex).SaveHistorical props C19
+//@   modifies dbmap(c.db)[]
 //@   requires wfidx(dbmap(c.db))
 //@   let h = Block.GetHeight(blk)
 //@   let id = Block.GetID(blk)
@@ -116,6 +118,7 @@ package chainindex
 // id->height records by the height they point to -- nothing is written, and nothing at all changes
 // when there is no window, no last-accepted pointer or the chain is not taller than the window.
 //@ func (*ChainIndex).cleanupOnStartup props C19
+//@   modifies dbmap(c.db)[]
 //@   requires wfidx(dbmap(c.db)) && wfkeys(dbmap(c.db)) && consistent(dbmap(c.db))
 //@   loop 1 invariant forall q string :: !bput(batch, q)
 //@   loop 1 invariant forall q string :: bdel(batch, q) && len(q) >= 1 && q[0] != 1 ==> len(q) == 9 && (q[0] == 0 || q[0] == 2) && 0 < be64(q, 1) && be64(q, 1) < thresholdHeight
